@@ -13,9 +13,9 @@
 //	W|tag|message name|schema|bytes
 //	    arbitrary bytes for proto.Unmarshal into that message type; the
 //	    canonical re-encoding (unknown fields dropped) and text are compared.
-//	H|tag|kek kind|kek key|ad|tape|entries|schemas|puburls
-//	    a keyset: entries ';' separated id~status~prefix~material~url~value,
-//	    the first listed primary id is entries' "P" mark: id~...~P.
+//	H|tag|kek kind|kek key|ad|tape|primary id|entries|schemas|puburls
+//	    a keyset: entries ';' separated id~status~prefix~material~url~value;
+//	    schemas url=schema;...; puburls privateurl=publicurl~fieldnumber;...
 //	    Run: cleartext / encrypted / public-only, binary and JSON, written and
 //	    read back; same keys, ids, statuses, primary, order; primitives of the
 //	    original and the reread handle interoperate.
@@ -99,9 +99,9 @@ func class(in, obs string) string {
 	case "W":
 		return "W/" + f[1] + "/" + f[2][len("google.crypto.tink."):] + "/" + res
 	case "H":
-		n := len(strings.Split(f[6], ";"))
+		n := len(strings.Split(f[7], ";"))
 		fam := ""
-		if es := strings.Split(f[6], ";"); len(es) > 0 {
+		if es := strings.Split(f[7], ";"); len(es) > 0 {
 			fam = familyOf(strings.Split(es[0], "~")[4])
 		}
 		return "H/" + f[1] + "/" + f[2] + "/" + fam + "/n" + fmt.Sprint(n) + "/" + res
@@ -124,6 +124,8 @@ func serEqual(a, b *protoserialization.KeySerialization) bool {
 		bytes.Equal(a.KeyData().GetValue(), b.KeyData().GetValue()) &&
 		a.OutputPrefixType() == b.OutputPrefixType() && ida == idb
 }
+
+type prefixer interface{ OutputPrefix() []byte }
 
 type privateKey interface {
 	PublicKey() (key.Key, error)
@@ -156,8 +158,10 @@ func roundTripKey(k key.Key) (s1, ps *protoserialization.KeySerialization, fail 
 	if id1 != id2 || has1 != has2 {
 		return s1, nil, "id requirement changed by the round trip"
 	}
-	if !bytes.Equal(k.(interface{ OutputPrefix() []byte }).OutputPrefix(), k2.(interface{ OutputPrefix() []byte }).OutputPrefix()) {
-		return s1, nil, "output prefix changed by the round trip"
+	if a, ok := k.(prefixer); ok {
+		if b, ok := k2.(prefixer); !ok || !bytes.Equal(a.OutputPrefix(), b.OutputPrefix()) {
+			return s1, nil, "output prefix changed by the round trip"
+		}
 	}
 	// parameters
 	p := k.Parameters()
@@ -230,7 +234,7 @@ func runKey(f []string) string {
 		return "ok|?|chk=serialized value does not unmarshal"
 	}
 	out := "ok|" + serString(s1) + "|" + text
-	if ps != nil {
+	if ps != nil && f[8] != "-" {
 		out += "|PUB:" + serString(ps)
 	} else {
 		out += "|PUB:-"
